@@ -9,7 +9,7 @@ import { A, show, parse, Rng, quote } from "./sx.mjs";
 const here = path.dirname(fileURLToPath(import.meta.url));
 const build = process.env.BEFF_JS_BUILD || path.join(here, "../../.build/js");
 const [mode, cmd, ...rest] = process.argv.slice(2);
-const modFile = { sha: "./mode_sha.mjs", rt: "./mode_rt.mjs", ctx: "./mode_ctx.mjs", prog: "./mode_prog.mjs", schema: "./mode_schema.mjs", sub: "./mode_sub.mjs" }[mode.split("-")[0]];
+const modFile = { sha: "./mode_sha.mjs", rt: "./mode_rt.mjs", ctx: "./mode_ctx.mjs", prog: "./mode_prog.mjs", schema: "./mode_schema.mjs", sub: "./mode_sub.mjs", h256: "./mode_h256.mjs", rtd: "./mode_rtd.mjs" }[mode.split("-")[0]];
 const M = await import(modFile);
 
 async function loadRuntime() {
